@@ -358,7 +358,7 @@ def mk_pct_stretch(c, n):
 
 # ----------------------------------------------------------------------------- parsing
 
-ALPHABET = "0123456789.+-e%pxmct "
+ALPHABET = "0123456789.+-eE%pxmct "      # (exponent characters: e and E)
 
 
 def size_pattern_of_code():
